@@ -31,9 +31,9 @@ TARGETS = [
         (r'__auto_type th = owner\.load\(\);', 'struct thread *th = this->owner;', 1), (r'LOG_ERROR_RETURN\(EINVAL, ,[^;]*;', 'return;', 2),
         (r'do_mutex_unlock\(this\)', 'do_mutex_unlock(this)', 1)]),
     Target('r_lock', TC, r'int recursive_mutex::lock\(Timeout timeout\)', rules=[
-        (r'(?<![\w>.])owner == CURRENT', 'this->owner == CURRENT', 1), (r'mutex::lock\(timeout\)', 'MTX_lock_c(this, timeout)', 1), fields_rule(['recursive_count'])]),
+        (r'(?<![\w>.])owner(?:\.load\([^)]*\))? == CURRENT', 'this->owner == CURRENT', 1), (r'mutex::lock\(timeout\)', 'MTX_lock_c(this, timeout)', 1), fields_rule(['recursive_count'])]),
     Target('r_try_lock', TC, r'int recursive_mutex::try_lock\(\)', rules=[
-        (r'(?<![\w>.])owner == CURRENT', 'this->owner == CURRENT', 1), (r'mutex::try_lock\(\)', 'MTX_try_lock_c(this)', 1), fields_rule(['recursive_count'])]),
+        (r'(?<![\w>.])owner(?:\.load\([^)]*\))? == CURRENT', 'this->owner == CURRENT', 1), (r'mutex::try_lock\(\)', 'MTX_try_lock_c(this)', 1), fields_rule(['recursive_count'])]),
     Target('r_unlock', TC, r'void recursive_mutex::unlock\(\)', rules=[
         (r'__auto_type th = owner\.load\(\);', 'struct thread *th = this->owner;', 1), (r'LOG_ERROR_RETURN\(EINVAL, ,[^;]*;', 'return;', 2),
         (r'do_mutex_unlock\(this\)', 'do_mutex_unlock_c(this)', 1), fields_rule(['recursive_count'])]),
@@ -64,7 +64,7 @@ TARGETS = [
 import importlib.util as _ilu, os as _os
 _sp = _ilu.spec_from_file_location('spec_C04_for_C01', _os.path.join(_os.path.dirname(__file__), '..', 'C04', 'spec.py'))
 _c04 = _ilu.module_from_spec(_sp); _sp.loader.exec_module(_c04)
-_need = ('t_expiration', 'sat_sub', 't_get', 't_expired', 'prelocked_thread_interrupt', 'thread_interrupt', 'prepare_usleep', 'resume_threads_inlined', 'th_min', 'idle_wait')
+_need = ('t_expiration', 'sat_add', 'sat_sub', 't_get', 't_expired', 'prelocked_thread_interrupt', 'thread_interrupt', 'prepare_usleep', 'resume_threads_inlined', 'th_min', 'idle_wait')
 TARGETS += [t for t in _c04.TARGETS if t.name in _need and t.name not in [x.name for x in TARGETS]]
 UNITS = {'mutex.c': 'mutex.c.in', 'qspin.c': 'qspin.c.in', 'sched.c': '../C04/sched.c.in'}
 PROOFS = [
